@@ -112,6 +112,8 @@ def run_case(c):
         # real-valued tensors (float dtype) against possibly complex Hamiltonians
         for _i in range(len(psi.A)):
             psi.A[_i] = psi.A[_i].real.copy()
+    if c['seed'] % 7 == 2:
+        h.integer_tensors(psi)          # integer dtype: the algorithms have to promote the tensors themselves
     v0 = oracle.mps_dense(psi.A)
     n0 = float(np.linalg.norm(v0))
     if n0 < 1e-10:
